@@ -19,7 +19,7 @@ fn corpus_records(seed: u64, tier: Tier) -> Vec<(String, String)> {
                     break;
                 }
                 // the C17 corpus is a (smaller) slice of the C03 corpus: every third input
-                let v: Vec<(String, String)> = corpus::texts(seed, tier, s, NSHARDS).into_iter().enumerate().filter(|(i, _)| i % 3 == 0).map(|(_, t)| { let r = record(&t); (t, r) }).collect();
+                let v: Vec<(String, String)> = { let full = corpus::full_part(s, NSHARDS).len(); let all = corpus::texts(seed, tier, s, NSHARDS); let n = all.len(); all.into_iter().enumerate().filter(move |(i, _)| i % 3 == 0 || *i >= n - full) }.map(|(_, t)| { let r = record(&t); (t, r) }).collect();
                 parts.lock().unwrap()[s] = v;
             });
         }
@@ -133,7 +133,7 @@ pub fn run(ctx: &Ctx) -> Report {
     }
     Report {
         stats: st,
-        rule: "the corpus of C03/C05 (grammar-aware texts, prefixes and single-character mutations, exhaustive short arguments, numeric boundaries, members and non-members, formats; every third input), fixed by the seed, is evaluated by the dev build (debug assertions and overflow checks on) and the release build of the same harness; per input the canonical record (parse Ok: options+tree Debug | Err: message | panic; compile Ok: program with the embedded clock normalised + sorted destination table | Err: message | panic) must be identical. Non-trivial: parse is Ok (the compile stage is reached). Distinct: by input text.".into(),
+        rule: "the corpus of C03/C05 (grammar-aware texts, prefixes and single-character mutations, exhaustive short arguments, numeric boundaries, members and non-members, formats; every third input; in full: every code point of the basic plane as argument of the string-processing primaries, bracket arrangements), fixed by the seed, is evaluated by the dev build (debug assertions and overflow checks on) and the release build of the same harness; per input the canonical record (parse Ok: options+tree Debug | Err: message | panic; compile Ok: program with the embedded clock normalised + sorted destination table | Err: message | panic) must be identical. Non-trivial: parse is Ok (the compile stage is reached). Distinct: by input text.".into(),
         assumptions: vec!["records are compared through a 64-bit hash; the full records are fetched for mismatches".into()],
         exhaustive: false,
     }
